@@ -141,3 +141,93 @@ def st_expr(st, node, frame, path, upto):
     q.ev = path.ev[:upto]
     s2 = replay(q)
     return s2.expr(node, frame)
+
+
+# ------------------------------------------------------------------ receive loops
+def _is_logger_call(node):
+    return isinstance(node, ast.Call) and U(node.func).startswith(('_logger.', 'logging.', 'traceback.'))
+
+
+def recv_may_raise(node, frame, path):
+    """may-raise model for the receive loops: the framer call may raise anything
+    (decoders raise struct.error / IndexError on malformed PDUs), transport reads raise
+    socket errors, everything else in the loop is treated as non-raising (assumption)."""
+    if not isinstance(node, ast.Call) or not isinstance(node.func, ast.Attribute):
+        return []
+    f = node.func
+    if f.attr == 'processIncomingPacket':
+        return ['AnyException']
+    if f.attr in ('recv', 'read', 'recvfrom') and U(f.value) in TRANSPORT_RECEIVERS:
+        return ['socket.timeout', 'socket.error', 'AnyException']
+    if f.attr == 'get' and 'queue' in U(f.value):
+        return ['asyncio.CancelledError', 'AnyException']
+    return []
+
+
+class RecvPath:
+    def __init__(self):
+        self.flags = {}
+        self.pip = None            # dict param -> substituted expr text (processIncomingPacket call), or None
+        self.pip_node = None
+        self.zero_added = False
+        self.handler = None        # (handler class names, exception) taken
+        self.raised = None         # exception raised inside the loop body (name) and where
+        self.reset = False         # framer.resetFrame() called on this path
+        self.stops = False         # running = False / transport.close()
+        self.exit = None
+        self.in_loop = False
+        self.path = None
+
+
+PIP_PARAMS = ['data', 'callback', 'unit']
+
+
+def recv_paths(cx, fe):
+    name, cqn, ex, snd, recv, kind = fe
+    cls = cx.idx.cls(cqn)
+    f = cx.method(cls, recv)
+    res = SelfResolver(cx.idx, stop=lambda fn: fn.name in (ex, snd))
+    out = []
+    for p in cx.enum(f, cls, resolver=res, may_raise=recv_may_raise, max_depth=2):
+        st = annotate(p)
+        rp = RecvPath()
+        rp.path, rp.exit = p, p.exit
+        for i, ev in enumerate(p.ev):
+            if ev.kind == 'cond':
+                sub = U(ev._sub)
+                if sub.endswith('.broadcast_enable'):
+                    rp.flags['broadcast_enable'] = ev.a
+                elif sub.endswith('.ListenOnly'):
+                    rp.flags['listen_only'] = ev.a
+                elif ' in ' in sub and sub.startswith(('0 in', '0 not in')):
+                    pass
+            elif ev.kind == 'loop' and ev.a == 'enter' and ev.frame.fid == 0:
+                rp.in_loop = True
+            elif ev.kind == 'raise':
+                rp.raised = (ev.a, U(ev.node)[:60])
+            elif ev.kind == 'handler':
+                rp.handler = (ev.a, ev.b)
+            elif ev.kind == 'call':
+                sub = ev._sub
+                fn = sub.func
+                if isinstance(fn, ast.Attribute):
+                    if fn.attr == 'processIncomingPacket':
+                        args = {}
+                        for pn, a in zip(PIP_PARAMS, sub.args):
+                            args[pn] = a
+                        for kw in sub.keywords:
+                            if kw.arg:
+                                args[kw.arg] = kw.value
+                        rp.pip = args
+                        rp.pip_node = ev.node
+                    elif fn.attr == 'append' and sub.args and isinstance(sub.args[0], ast.Constant) and sub.args[0].value == 0:
+                        rp.zero_added = True
+                    elif fn.attr == 'resetFrame' and U(ev.node.func.value) == 'self.framer':
+                        rp.reset = True
+                    elif fn.attr in ('close', 'loseConnection', 'abort') and U(ev.node.func.value) == 'self.transport':
+                        rp.stops = True
+            elif ev.kind == 'assign' and isinstance(ev.a, ast.Attribute) and U(ev.a) == 'self.running':
+                if isinstance(ev.node.value, ast.Constant) and ev.node.value.value is False:
+                    rp.stops = True
+        out.append(rp)
+    return cls, f, out
